@@ -1396,6 +1396,12 @@ pub fn c07_prims(inp: &PV) -> PV {
             out[19] = pv_ix(&cc);
             out[20] = PV::T(K::rd_i(&k));
         }
+        // connected components over `d` nodes (union-find trees of depth > 2 need >= 8 nodes)
+        5 => {
+            let (cc, k) = <<K as ArrayKind>::Index as NaturalArray<K>>::connected_components(&idx, &K::mk_ix(&inp.at(6).ts()), d.clone());
+            out[19] = pv_ix(&cc);
+            out[20] = PV::T(K::rd_i(&k));
+        }
         _ => panic!("ENGINE-ERROR: unknown primitive group"),
     }
     PV::List(out)
